@@ -260,7 +260,12 @@ def rule_r3_unchecked(text, fired, slice_recv, ref_recv=()):
             kk = k - 1
             while kk >= 0 and code[kk].isspace():
                 kk -= 1
-            if kk < 0 or not (code[kk].isalnum() or code[kk] in '_)]'):
+            unary = kk < 0 or not (code[kk].isalnum() or code[kk] in '_)]')
+            if not unary:
+                # `return *x.get_unchecked(i)`: the word before the star is a keyword, not an operand
+                wm = re.search(r'(\w+)$', code[:kk + 1])
+                unary = bool(wm) and wm.group(1) in ('return', 'in', 'else', 'break', 'match', 'if', 'while')
+            if unary:
                 start = k
         # leading borrow of the element (`&bits.get_unchecked(i)`) is left alone
         as_ref = start == rs and any(re.fullmatch(p, recv_n) for p in ref_recv)
